@@ -168,7 +168,8 @@ class SubPoly(object):
           r = i
       try:
           assert len(r)==len(v)
-          for j,b in zip(r,v):
+          # take the values before writing (v may be self)
+          for j,b in zip(r,list(v)):
               self[j] = b
       except (TypeError,AssertionError):
           for j,b in zip(r,Poly(v,self.size,len(r))):
